@@ -192,6 +192,7 @@ type Publisher struct {
 	inFlight int // block requests currently being served (including parked)
 	MaxInFlt int
 	headBody []byte // custom head for every head request (C03)
+	parked   atomic.Int32 // requests of this publisher parked at its gate right now
 }
 
 // AddPublisher creates publisher i (key pool index i, ed25519) listening on 10.0.0.(i+1):80.
@@ -367,6 +368,9 @@ func (p *Publisher) Open() {
 	p.mu.Unlock()
 }
 
+// Parked reports how many requests of this publisher are parked at its closed gate right now.
+func (p *Publisher) Parked() int { return int(p.parked.Load()) }
+
 func (p *Publisher) IsHeld() bool { p.mu.Lock(); defer p.mu.Unlock(); return p.held }
 
 func (p *Publisher) InFlight() int { p.mu.Lock(); defer p.mu.Unlock(); return p.inFlight }
@@ -445,11 +449,13 @@ func (p *Publisher) ServeHTTP(rw http.ResponseWriter, r *http.Request) {
 		defer func() { p.mu.Lock(); p.inFlight--; p.mu.Unlock() }()
 		if held {
 			w.parkedReq.Add(1)
+			p.parked.Add(1)
 			w.Bump()
 			select {
 			case <-gate:
 			case <-r.Context().Done():
 			}
+			p.parked.Add(-1)
 			w.parkedReq.Add(-1)
 			w.Bump()
 		}
